@@ -718,6 +718,12 @@ class Braket(Adapter):
                 t, p = 0.0, 0.0
             elif r < 0.6:
                 t = 0.0
+            if rng.random() < 0.3:
+                # just next to the special values the converter tests for (it compares floats exactly)
+                miss = rng.choice([1e-5, -1e-5, 1e-6, 3e-7])
+                t += miss
+                if rng.random() < 0.5:
+                    p += miss
             return ["u", q, t, p, l], lambda c: c.u(q, t, p, l)
         if kind == "control_modifier" and n >= 2:
             a, b = rng.sample(range(n), 2)
@@ -1274,6 +1280,32 @@ class Driver:
                                   f"qulacs parametric circuit with mapped parameters differs from the bound circuit: "
                                   f"dist {d:.3e}", inp)
 
+    def qulacs_compiled_independent(self, ad):
+        """a compiled circuit hands out its backend program on every access: what a caller does with one copy (adding gates,
+        setting parameters) must not show in the next one"""
+        for _ in range(12 if self.tier == "quick" else 200):
+            c = rand_circuit(self.rng, self.npr, [k for k in ALL if k not in PAULIS], nmax=3, gmax=5)
+            n = c.qubit_count
+            comp = ad.M.compile_circuit(c)
+            self.res.count(("qulacs", "compiled_independent", tuple(map(str, describe(list(c.gates))))),
+                           bucket="qulacs:compiled_independent")
+            try:
+                first = comp.qulacs_circuit
+                import qulacs
+                first.add_gate(qulacs.gate.H(self.rng.randrange(n)))       # the caller extends ITS copy
+                first.add_gate(qulacs.gate.T(self.rng.randrange(n)))
+                second = comp.qulacs_circuit
+                V = ad.unitary(second, n)
+            except Exception as e:  # noqa: BLE001
+                self.res.fail("crash:qulacs:compiled_independent", f"{type(e).__name__}: {str(e)[:160]}",
+                              {"n": n, "circuit": describe(list(c.gates))})
+                continue
+            d = O.phase_dist(V, lib_unitary(list(c.gates), n))
+            if not d <= ad.rt_tol(list(c.gates)):
+                self.res.fail("sweep:qulacs:compiled_independent",
+                              f"after the caller extended the first qulacs_circuit it was given, the next one differs from the "
+                              f"compiled circuit (dist {d:.3e})", {"n": n, "circuit": describe(list(c.gates))})
+
     def qiskit_preconversion(self, ad):
         for _ in range(12 if self.tier == "quick" else 150):
             bc, descs, n = ad.preconv_case(self.rng, self.npr)
@@ -1341,7 +1373,7 @@ def main():
         if ad.has_reverse:
             phases += [drv.reverse, drv.roundtrip]
         if name == "qulacs":
-            phases.append(drv.qulacs_parametric)
+            phases += [drv.qulacs_parametric, drv.qulacs_compiled_independent]
         if name == "qiskit":
             phases += [drv.qiskit_preconversion, drv.multi_register]
         if name == "tket":
